@@ -2,12 +2,16 @@
 
 D1 every store of the ingest methods (normal form, helpers inlined) is a commutative merge (classified); aggregates
    are created from their key only; an aggregate that receives a merge is stored in the aggregator (CFG: no path
-   construction -> merge -> return without a registration),
+   construction -> merge -> return without a registration); a container entry is stored only when the lookup found
+   nothing and is never removed (CFG: every path to `c[k] = agg` passes an edge guaranteeing absence); the unconditional
+   merges (dispatch, flag, set add, counter) are not skipped by a test that reads state left by earlier records, and
+   nothing on the aggregation path reads process-lifetime cells,
 D2 verdict fields are order-free functions of merged state; finalisation writes to aggregator state - directly or
    through an aliasing local - only idempotent min/max fall-backs; a None-until-ingested field is never ordered
    without a None guard (finalisation is total on every subset of records),
 D3 verdict decision trees (if statements / conditional expressions, roles found by pattern, tests outside the table
-   treated as free booleans), roll-up counter zeroed per call, set-difference directions.
+   treated as free booleans), roll-up counter zeroed per call, set-difference directions; the verdict classes are plain
+   records and no finaliser rewrites a built verdict (the table is decided on the constructor arguments).
 """
 from __future__ import annotations
 
@@ -78,21 +82,16 @@ def classify_store(fn: ast.FunctionDef, st: ast.AST, target: ast.AST, rec: str, 
     guards = _guards(st, fn)
     value = getattr(st, "value", None)
     tname = dotted_name(target) if not isinstance(target, ast.Subscript) else (dotted_name(target.value) or "") + "[...]"
-    # create-if-absent: container[key] = fresh aggregate, guarded by `if not <x>` where x = container.get(key)
-    if isinstance(target, ast.Subscript) and isinstance(value, ast.Name):
-        ctor_defs = [v for v in assigned_value(fn, value.id) if isinstance(v, ast.Call) and not (call_attr(v) == "get")]
-        absent_guard = any(pol and isinstance(t, ast.UnaryOp) and isinstance(t.op, ast.Not) and dotted_name(t.operand) == value.id for t, pol in guards) or any(
-            pol and isinstance(t, ast.Compare) and isinstance(t.ops[0], ast.Is) and dotted_name(t.left) == value.id for t, pol in guards)
-        # or unconditionally re-stored after `x = container.get(key) or Ctor(..)`: what is written is what was there, or new
-        all_defs = assigned_value(fn, value.id)
-        lookup = ast.dump(ast.Call(func=ast.Attribute(value=target.value, attr="get", ctx=ast.Load()), args=[target.slice], keywords=[]), include_attributes=False).replace("Store()", "Load()")
-        restore = False
-        if len(all_defs) == 1 and isinstance(all_defs[0], ast.BoolOp) and isinstance(all_defs[0].op, ast.Or) and len(all_defs[0].values) == 2:
-            first, second = all_defs[0].values
-            if ast.dump(first, include_attributes=False) == lookup and isinstance(second, ast.Call) and isinstance(second.func, ast.Name):
-                restore = True
-                ctor_defs = [second]
-        if (ctor_defs and absent_guard) or restore:
+    # create-if-absent: container[key] = fresh aggregate.  Whether the store is reached only when the key is absent is
+    # decided on the CFG by C13-D1-entries-created-never-replaced (check_entries_kept); here: built from the key only
+    if isinstance(target, ast.Subscript) and isinstance(value, (ast.Name, ast.Call)):
+        ctor_defs: List[ast.AST] = []
+        if isinstance(value, ast.Name):
+            for v in assigned_value(fn, value.id):
+                ctor_defs += [l for l in _leaves(v) if isinstance(l, ast.Call) and isinstance(l.func, ast.Name) and l.func.id[:1].isupper()]
+        elif isinstance(value.func, ast.Name) and value.func.id[:1].isupper():
+            ctor_defs = [value]
+        if ctor_defs:
             for c in ctor_defs:
                 bad = bad_ctor_args(c, rec, key_vars)
                 if bad:
@@ -689,6 +688,478 @@ def _final_ctor(fn: ast.FunctionDef, cls_name: str) -> Tuple[ast.Call, ast.stmt]
     return c, st
 
 
+# ---------------------------------------------------------------------------------------------------------
+# D1c: an entry of an aggregate container is created when absent, never replaced or removed
+# ---------------------------------------------------------------------------------------------------------
+
+REMOVERS = {"pop", "popitem", "clear", "remove", "discard", "__delitem__", "difference_update", "intersection_update", "symmetric_difference_update"}
+
+
+def _is_none(e: ast.AST) -> bool:
+    return isinstance(e, ast.Constant) and e.value is None
+
+
+def check_entries_kept(R: Report, rule: str, fn: ast.FunctionDef, qual: str, rec: str, fresh_methods: Set[str] = frozenset(), model_classes: Optional[Set[str]] = None) -> None:
+    """Every store ``CONT[K] = V`` into a container reachable from the aggregator is reached only when the lookup of
+    K in CONT found nothing (or writes back what the lookup gave); nothing removes an entry or an element."""
+    from ..cfg import CFG, edges_guaranteeing, reaching_defs
+
+    g = CFG(fn)
+    state = _state_aliases(fn, {"self"}, fresh_methods)
+    fresh_locals: Set[str] = set()
+    for n in walk_no_nested(fn):
+        if isinstance(n, (ast.Assign, ast.AnnAssign)) and n.value is not None:
+            tg = n.targets[0] if isinstance(n, ast.Assign) else n.target
+            if isinstance(tg, ast.Name) and any(isinstance(l, ast.Call) and isinstance(l.func, ast.Name) and (l.func.id in model_classes if model_classes is not None else l.func.id[:1].isupper()) for l in _leaves(n.value)):
+                fresh_locals.add(tg.id)
+    roots = (state | fresh_locals) - {rec}
+
+    def lookup_forms(cont: ast.AST, key: ast.AST) -> Set[str]:
+        c, k = ast.unparse(cont), ast.unparse(key)
+        return {_d(_expr(s)) for s in (f"{c}.get({k})", f"{c}.get({k}, None)", f"{c}[{k}]")}
+
+    for st, obj in _store_sites(fn):
+        stmt = st if isinstance(st, ast.stmt) else stmt_of(st)
+        line = getattr(stmt, "lineno", 0)
+        # removal of an entry / element of stored state
+        if isinstance(st, ast.Call) and isinstance(obj, ast.Attribute) and obj.attr in REMOVERS and _root_name(obj.value) in roots:
+            R.violation(rule, AGG, qual, norm(stmt), f"`{ast.unparse(obj)}` removes merged state while records are ingested: whether the removed entry comes back depends on which records follow, so the aggregate depends on the ingest order", line)
+            continue
+        if isinstance(st, ast.Delete) and _root_name(obj) in roots:
+            R.violation(rule, AGG, qual, norm(stmt), f"`{norm(stmt)}` removes merged state while records are ingested: the aggregate depends on the ingest order", line)
+            continue
+        if not (isinstance(st, (ast.Assign, ast.AnnAssign)) and isinstance(obj, ast.Subscript) and isinstance(obj.ctx, ast.Store)):
+            continue
+        if _root_name(obj) not in roots:
+            continue
+        value = st.value
+        cont, key = obj.value, obj.slice
+        # counters (`c[k] = c.get(k, 0) + 1`) are merges of the old value, not replacements
+        if isinstance(value, ast.BinOp) and isinstance(value.op, ast.Add) and any(_d(x) in lookup_forms(cont, key) or (isinstance(x, ast.Call) and call_attr(x) == "get" and x.args and _d(x.func.value) == _d(cont) and _d(x.args[0]) == _d(key)) for x in (value.left, value.right)):
+            continue
+        forms = lookup_forms(cont, key)
+        sids = g.nodes_for(stmt)
+        if not sids:
+            raise AnalysisError(f"{qual}: no CFG node for {norm(stmt)}")
+        sid = sids[0]
+
+        def writes_back(e: ast.AST, use: int, depth: int = 0) -> bool:
+            """The stored value is what the lookup gave whenever the lookup gave something."""
+            if depth > 4:
+                return False
+            if isinstance(e, ast.BoolOp) and isinstance(e.op, ast.Or) and _d(e.values[0]) in forms:
+                return True
+            if isinstance(e, ast.Call) and call_attr(e) in ("get", "setdefault") and len(e.args) == 2 and _d(e.func.value) == _d(cont) and _d(e.args[0]) == _d(key):
+                return True
+            if _d(e) in forms:
+                return True
+            if isinstance(e, ast.Name):
+                defs = reaching_defs(g, e.id, use)
+                return bool(defs) and all(isinstance(d.ast, (ast.Assign, ast.AnnAssign)) and d.ast.value is not None and isinstance((d.ast.targets[0] if isinstance(d.ast, ast.Assign) else d.ast.target), ast.Name) and writes_back(d.ast.value, d.id, depth + 1) for d in defs)
+            return False
+
+        if value is not None and writes_back(value, sid):
+            R.ok(rule, AGG, qual, norm(stmt), "writes back what the lookup gave, or a new aggregate when it gave nothing", line)
+            continue
+
+        def absent_atom_at(test_node: int):
+            def holds_lookup(e: ast.AST) -> bool:
+                if _d(e) in forms:
+                    return True
+                if isinstance(e, ast.NamedExpr):
+                    return holds_lookup(e.value)
+                if isinstance(e, ast.Name):
+                    defs = reaching_defs(g, e.id, test_node)
+                    return bool(defs) and all(isinstance(d.ast, (ast.Assign, ast.AnnAssign)) and d.ast.value is not None and _d(d.ast.value) in forms for d in defs)
+                return False
+
+            def atom(e: ast.AST) -> Optional[bool]:
+                if holds_lookup(e):
+                    return False  # truthy lookup result: an entry exists
+                if isinstance(e, ast.Compare) and len(e.ops) == 1:
+                    l, op, r = e.left, e.ops[0], e.comparators[0]
+                    if _is_none(r) and holds_lookup(l):
+                        return True if isinstance(op, (ast.Is, ast.Eq)) else False if isinstance(op, (ast.IsNot, ast.NotEq)) else None
+                    in_cont = _d(l) == _d(key) and (_d(r) == _d(cont) or _d(r) == _d(_expr(f"{ast.unparse(cont)}.keys()")))
+                    if in_cont and isinstance(op, ast.NotIn):
+                        return True
+                    if in_cont and isinstance(op, ast.In):
+                        return False
+                return None
+
+            return atom
+
+        blocked: Set[Tuple[int, str]] = set()
+        for n in g.nodes:
+            if n.kind in ("if", "while") and n.part is not None:
+                for lab in edges_guaranteeing(n.part, absent_atom_at(n.id)):
+                    blocked.add((n.id, lab))
+        seen = g.reach([g.entry], blocked_edges=blocked)
+        ok = sid not in seen
+        R.check(ok, rule, AGG, qual, norm(stmt), f"`{norm(stmt, 70)}` is reached although `{ast.unparse(cont)}` may already hold an aggregate under this key (no test on the way guarantees that the lookup found nothing): the stored aggregate is replaced and everything merged into it so far - flags, attached runs, timestamps - is dropped, so the verdict depends on whether this record was ingested before or after the others", line, path=None if ok else g.path_to(seen, sid), what_ok="stored only when the key is absent")
+
+
+# ---------------------------------------------------------------------------------------------------------
+# D1d: what happens to a record does not depend on what was ingested before it
+# ---------------------------------------------------------------------------------------------------------
+
+def _mutable_default_params(fn: ast.AST) -> Set[str]:
+    a = fn.args
+    pos = a.posonlyargs + a.args
+    out: Set[str] = set()
+    for p, dflt in list(zip(pos[len(pos) - len(a.defaults):], a.defaults)) + [(p, d) for p, d in zip(a.kwonlyargs, a.kw_defaults) if d is not None]:
+        if isinstance(dflt, (ast.Dict, ast.List, ast.Set, ast.DictComp, ast.ListComp, ast.SetComp)) or (isinstance(dflt, ast.Call) and call_name(dflt) in ("set", "dict", "list", "defaultdict", "Counter", "deque", "OrderedDict")):
+            out.add(p.arg)
+    return out
+
+
+def _pure_methods(cls: ast.ClassDef) -> Set[str]:
+    """Methods of the class whose body never touches the instance (their result is a function of the arguments)."""
+    out: Set[str] = set()
+    for m in cls.body:
+        if isinstance(m, FuncNode):
+            first = m.args.args[0].arg if m.args.args else None
+            static = any(dotted_name(d) == "staticmethod" for d in m.decorator_list)
+            if static or first is None or not any(isinstance(x, ast.Name) and x.id == first for x in ast.walk(m)):
+                out.add(m.name)
+    return out
+
+
+def _self_attr_of(e: ast.AST, me: str = "self") -> Optional[str]:
+    """X when the attribute / subscript / method-call chain *e* starts at ``self.X``."""
+    prev = None
+    while True:
+        if isinstance(e, (ast.Attribute, ast.Subscript, ast.Starred)):
+            prev, e = e, e.value
+        elif isinstance(e, ast.Call) and isinstance(e.func, ast.Attribute):
+            prev, e = e.func, e.func.value
+        else:
+            break
+    if isinstance(e, ast.Name) and e.id == me and isinstance(prev, ast.Attribute):
+        return prev.attr
+    return None
+
+
+def _config_attrs(cls: ast.ClassDef) -> Set[str]:
+    """Attributes of the aggregator that are fixed at construction (bound in __init__ to a parameter or a constant and
+    never written or mutated by another method): reading one brings no earlier record into a decision."""
+    init = next((m for m in cls.body if isinstance(m, FuncNode) and m.name == "__init__"), None)
+    if init is None:
+        return set()
+    params = {a.arg for a in init.args.args[1:] + init.args.kwonlyargs}
+    cand: Set[str] = set()
+    spoiled: Set[str] = set()
+    for n in walk_no_nested(init):
+        if isinstance(n, (ast.Assign, ast.AnnAssign)) and n.value is not None:
+            for t in (n.targets if isinstance(n, ast.Assign) else [n.target]):
+                if isinstance(t, ast.Attribute) and isinstance(t.value, ast.Name) and t.value.id == "self":
+                    simple = isinstance(n.value, ast.Constant) or (isinstance(n.value, ast.Name) and n.value.id in params) or (isinstance(n.value, ast.Call) and call_name(n.value) in ("bool", "int", "str", "float", "tuple", "frozenset") and all(isinstance(a, ast.Name) and a.id in params for a in n.value.args))
+                    (cand if simple and t.attr not in cand else spoiled).add(t.attr)
+    for m in cls.body:
+        if not isinstance(m, FuncNode):
+            continue
+        for st, obj in _store_sites(m):
+            x = _self_attr_of(obj)
+            if x is not None and not (m is init and isinstance(st, (ast.Assign, ast.AnnAssign)) and isinstance(obj, ast.Attribute) and isinstance(obj.value, ast.Name)):
+                spoiled.add(x)
+    return cand - spoiled
+
+
+def history_tainted(fn: ast.AST, seeds: Set[str], methods: Set[str], pure: Set[str], config: Set[str] = frozenset()) -> Set[str]:
+    """Locals whose value may depend on state that outlives the call (value taint, flow-insensitive)."""
+    tainted = set(seeds)
+
+    def reads_history(e: Optional[ast.AST]) -> bool:
+        if e is None:
+            return False
+        skip: Set[int] = set()
+        for x in ast.walk(e):
+            # `self.m` naming a method of the class is not state; calling a method that never touches the instance neither
+            if isinstance(x, ast.Attribute) and isinstance(x.value, ast.Name) and x.value.id == "self" and x.attr in methods:
+                par = parent(x)
+                called = isinstance(par, ast.Call) and par.func is x
+                if not called or x.attr in pure:
+                    skip.add(id(x.value))
+            elif isinstance(x, ast.Attribute) and isinstance(x.value, ast.Name) and x.value.id == "self" and x.attr in config:
+                skip.add(id(x.value))  # fixed at construction: not history
+        return any(isinstance(x, ast.Name) and isinstance(x.ctx, ast.Load) and x.id in tainted and id(x) not in skip for x in ast.walk(e))
+
+    changed = True
+    while changed:
+        changed = False
+        for n in walk_no_nested(fn):
+            pairs: List[Tuple[ast.AST, Optional[ast.AST]]] = []
+            if isinstance(n, ast.Assign):
+                pairs = [(t, n.value) for t in n.targets]
+            elif isinstance(n, (ast.AnnAssign, ast.AugAssign)):
+                pairs = [(n.target, n.value)]
+            elif isinstance(n, (ast.For, ast.AsyncFor)):
+                pairs = [(n.target, n.iter)]
+            elif isinstance(n, ast.NamedExpr):
+                pairs = [(n.target, n.value)]
+            elif isinstance(n, ast.withitem) and n.optional_vars is not None:
+                pairs = [(n.optional_vars, n.context_expr)]
+            for tgt, val in pairs:
+                if not reads_history(val):
+                    continue
+                for x in ast.walk(tgt):
+                    if isinstance(x, ast.Name) and isinstance(x.ctx, ast.Store) and x.id not in tainted:
+                        tainted.add(x.id)
+                        changed = True
+    history_tainted.reads = reads_history  # type: ignore[attr-defined]
+    return tainted
+
+
+def check_history_free(R: Report, rule: str, fn: ast.FunctionDef, qual: str, sites: List[Tuple[ast.stmt, str, Optional[ast.AST]]], seeds: Set[str], methods: Set[str], pure: Set[str], config: Set[str] = frozenset()) -> None:
+    """*sites*: (statement, kind, subject) of the unconditional merges of *fn* (dispatch call, flag := True, set add,
+    counter).  None of them may be skipped by a test that reads state left behind by earlier records, unless the edge
+    that skips it guarantees that the merge has already been made (idempotence guard)."""
+    from ..cfg import CFG, edges_guaranteeing
+
+    g = CFG(fn)
+    history_tainted(fn, seeds | _mutable_default_params(fn), methods, pure, config)
+    reads_history = history_tainted.reads  # type: ignore[attr-defined]
+    tests = [n for n in g.nodes if n.kind in ("if", "while") and n.part is not None and reads_history(n.part)]
+    node_of: Dict[int, int] = {}
+    for stmt, _kind, _subject in sites:
+        sids = g.nodes_for(stmt)
+        if not sids:
+            raise AnalysisError(f"{qual}: no CFG node for {norm(stmt)}")
+        node_of[id(stmt)] = sids[0]
+    # per tainted test: what each outgoing edge can still reach within the current iteration of the enclosing loops
+    reach_of: Dict[Tuple[int, str], Set[int]] = {}
+    for t in tests:
+        loops = {nid for a in ancestors(t.ast) if isinstance(a, (ast.For, ast.AsyncFor, ast.While)) for nid in g.nodes_for(a)} if t.ast is not None else set()
+        if t.kind == "while":
+            loops |= {t.id}
+        for lab in ("T", "F"):
+            starts = [x for x, l in g.succ[t.id] if l == lab]
+            reach_of[(t.id, lab)] = set(g.reach(starts, blocked=loops - set(starts))) if starts else set()
+    for stmt, kind, subject in sites:
+        sid = node_of[id(stmt)]
+        # the same merge written on several branches counts as one
+        group = {node_of[id(s2)] for s2, k2, sub2 in sites if k2 == kind and (_d(sub2) == _d(subject) if subject is not None else _d(s2) == _d(stmt))}
+        bad = None
+        for t in tests:
+            for lab, other in (("T", "F"), ("F", "T")):
+                if sid not in reach_of[(t.id, lab)] or not any(l == other for _x, l in g.succ[t.id]):
+                    continue
+                if group & reach_of[(t.id, other)]:
+                    continue
+                # the merge happens on edge `lab` and is skipped on the other; fine when that edge implies it was made already
+
+                def atom(e: ast.AST) -> Optional[bool]:
+                    if subject is None:
+                        return None
+                    if kind == "flag" and _d(e) == _d(subject):
+                        return True
+                    if kind == "set-add" and isinstance(e, ast.Compare) and len(e.ops) == 1 and isinstance(subject, ast.Call) and len(subject.args) == 1:
+                        if _d(e.left) == _d(subject.args[0]) and _d(e.comparators[0]) == _d(subject.func.value):
+                            return True if isinstance(e.ops[0], ast.In) else False if isinstance(e.ops[0], ast.NotIn) else None
+                    return None
+
+                if other in edges_guaranteeing(t.part, atom):
+                    continue
+                bad = (t, lab)
+                break
+            if bad:
+                break
+        what = ""
+        if bad:
+            t, lab = bad
+            what = f"this {kind} is carried out only when `{norm(t.part, 70)}` (L{t.line}) is {'true' if lab == 'T' else 'false'}, and that test reads state left behind by records ingested earlier (aggregator attributes, module / class level cells, a mutable default): whether the record is merged or dropped depends on what came before it, so the same set of records gives different aggregates in different orders"
+        R.check(bad is None, rule, AGG, qual, norm(stmt), what, getattr(stmt, "lineno", 0), what_ok=f"{kind} not conditional on earlier records")
+
+
+def check_no_process_cells(R: Report, rule: str, repo: Repo, cls: ast.ClassDef) -> None:
+    """No function reachable from the aggregator (inside the aggregation package) reads a module-level name or class
+    attribute that is written at run time: such a cell is shared by every aggregator of the process and outlives them."""
+    from .c04_rest import _class_of_receiver, _imported_names, _local_names, _static_classes, _write_only_use, process_state_cells
+    from ..engine import qualname_of
+
+    mod = repo.module(AGG)
+    roots = [(mod, m) for m in cls.body if isinstance(m, FuncNode)] + [(mod, f) for f in mod.tree.body if isinstance(f, FuncNode)]
+    pkg = AGG.rsplit("/", 1)[0] + "/"
+    clo = repo.call_graph_closure(roots, stop=lambda m, n: not m.rel.startswith(pkg))
+    for m, f, _path in sorted(clo.values(), key=lambda t: (t[0].rel, getattr(t[1], "lineno", 0))):
+        if not m.rel.startswith(pkg):
+            continue
+        cells = process_state_cells(repo, m)
+        imported = {alias: (nm, origin) for alias, nm, origin in _imported_names(repo, m)}
+        qn = qualname_of(f)
+        bad: List[Tuple[ast.AST, str, Tuple[ast.AST, str]]] = []
+        if cells or imported:
+            local = _local_names(f)
+            classes = _static_classes(m)
+            for n in walk_no_nested(f):
+                if _write_only_use(n):
+                    continue
+                if isinstance(n, ast.Name) and ("name", n.id) in cells and n.id not in local:
+                    bad.append((n, n.id, cells[("name", n.id)]))
+                elif isinstance(n, ast.Name) and n.id in imported and n.id not in local and ("name", imported[n.id][0]) in process_state_cells(repo, imported[n.id][1]):
+                    bad.append((n, n.id, process_state_cells(repo, imported[n.id][1])[("name", imported[n.id][0])]))
+                elif isinstance(n, ast.Attribute) and isinstance(n.value, ast.Name):
+                    owner = _class_of_receiver(n.value.id, f, classes, local)
+                    if owner is not None and ("attr", owner, n.attr) in cells:
+                        bad.append((n, f"{owner}.{n.attr}", cells[("attr", owner, n.attr)]))
+        if not bad:
+            R.ok(rule, m.rel, qn, f"{qn}: no process-lifetime state read", "", getattr(f, "lineno", 0))
+            continue
+        done: Set[str] = set()
+        for n, label, (site, writer) in bad:
+            if label in done:
+                continue
+            done.add(label)
+            R.violation(rule, m.rel, qn, norm(stmt_of(n))[:110], f"`{label}` is process-lifetime mutable state (written by `{norm(site)[:70]}` in {writer}) and is read on the aggregation path: what this or another aggregator ingested or finalised earlier decides the result, so the verdict is not a function of the set of records ingested", getattr(n, "lineno", 0))
+
+
+# ---------------------------------------------------------------------------------------------------------
+# D3b: the verdict object hands out what finalize_* computed
+# ---------------------------------------------------------------------------------------------------------
+
+INTERCEPTORS = {"__getattribute__", "__getattr__", "__setattr__", "__delattr__", "__new__", "__get__", "__set__"}
+
+
+def check_verdict_record(R: Report, rule: str, repo: Repo, cls_name: str, observed: Set[str]) -> None:
+    """The class of the verdict objects is a plain record: constructing it keeps every argument as given and reading a
+    field gives the stored value (no __post_init__ / __init__ / __setattr__ / property that rewrites a field)."""
+    home = None
+    for rel in (MODELS, AGG):
+        mod = repo.module(rel)
+        c = next((n for n in mod.tree.body if isinstance(n, ast.ClassDef) and n.name == cls_name), None)
+        if c is not None:
+            home = (rel, mod, c)
+            break
+    if home is None:
+        raise AnalysisError(f"class {cls_name} of the verdict objects not found in {MODELS} / {AGG}")
+    rel, mod, c = home
+    chain = [c]
+    for b in c.bases:
+        bn = dotted_name(b)
+        if bn in ("object", None):
+            continue
+        base = next((n for n in mod.tree.body if isinstance(n, ast.ClassDef) and n.name == bn), None)
+        if base is None:
+            raise AnalysisError(f"{cls_name}: base class {bn} not found in {rel}")
+        chain.append(base)
+    fields = {st.target.id for k in chain for st in k.body if isinstance(st, ast.AnnAssign) and isinstance(st.target, ast.Name)}
+    if not observed <= fields:
+        raise AnalysisError(f"{cls_name}: observed fields {sorted(observed - fields)} are not declared fields")
+    is_dc = any((dotted_name(d) or dotted_name(getattr(d, "func", None)) or "").split(".")[-1] == "dataclass" for d in c.decorator_list)
+    n_bad = 0
+    for k in chain:
+        for item in k.body:
+            if isinstance(item, FuncNode):
+                q = f"{k.name}.{item.name}"
+                if item.name in INTERCEPTORS:
+                    R.violation(rule, rel, q, f"def {item.name}(...)", f"`{q}` intercepts attribute access / construction of the verdict object: the fields a caller reads are no longer the values finalize_* computed", item.lineno)
+                    n_bad += 1
+                    continue
+                decos = {(dotted_name(d) or "").split(".")[-1] for d in item.decorator_list}
+                if item.name in fields and decos & {"property", "cached_property", "setter", "getter"}:
+                    R.violation(rule, rel, q, f"@property {item.name}", f"the verdict field `{item.name}` is computed by a property instead of holding the value finalize_* passed", item.lineno)
+                    n_bad += 1
+                    continue
+                if not item.args.args or decos & {"staticmethod"}:
+                    continue
+                me = item.args.args[0].arg
+                params = {a.arg for a in item.args.args[1:] + item.args.kwonlyargs}
+                aliases = _state_aliases(item, {me})
+                for st, obj in _store_sites(item):
+                    if _root_name(obj) not in aliases:
+                        continue
+                    stmt = st if isinstance(st, ast.stmt) else stmt_of(st)
+                    # a hand-written __init__ that stores each parameter under its own name keeps the arguments as given
+                    if item.name == "__init__" and isinstance(st, (ast.Assign, ast.AnnAssign)) and isinstance(obj, ast.Attribute) and isinstance(obj.value, ast.Name) and obj.value.id == me and isinstance(st.value, ast.Name) and st.value.id == obj.attr and obj.attr in params:
+                        continue
+                    fld = obj.attr if isinstance(obj, ast.Attribute) and isinstance(obj.value, ast.Name) and obj.value.id == me else (ast.unparse(obj.value) if isinstance(obj, (ast.Attribute, ast.Subscript)) else ast.unparse(obj))
+                    implicit = " when the object is constructed" if item.name in ("__post_init__", "__init__") else ""
+                    R.violation(rule, rel, q, norm(stmt), f"`{q}` rewrites `{fld}` of the verdict object{implicit}: the verdict a caller reads (and the launch roll-up, which counts `finalize_run(..).status`) is no longer the one finalize_* decided from the merged state - e.g. a run with both lifecycle edges is no longer reported as documented", getattr(stmt, "lineno", 0))
+                    n_bad += 1
+                for call in calls_in(item):
+                    if dotted_name(call.func) in ("object.__setattr__", "setattr", "super().__setattr__") and call.args and _root_name(call.args[0]) in aliases:
+                        R.violation(rule, rel, q, norm(stmt_of(call)), f"`{q}` rewrites a field of the verdict object through setattr", call.lineno)
+                        n_bad += 1
+            elif isinstance(item, (ast.Assign, ast.AugAssign)):
+                tgts = item.targets if isinstance(item, ast.Assign) else [item.target]
+                for t in tgts:
+                    if isinstance(t, ast.Name) and t.id in fields:
+                        R.violation(rule, rel, k.name, norm(item), f"the verdict field `{t.id}` is rebound in the class body (descriptor / class attribute) instead of being a plain field", item.lineno)
+                        n_bad += 1
+            elif isinstance(item, ast.AnnAssign) and isinstance(item.target, ast.Name) and item.target.id in observed and item.value is not None:
+                v = item.value
+                plain = isinstance(v, ast.Constant) or (isinstance(v, ast.Call) and call_name(v) in ("field", "dataclasses.field") and kwarg(v, "init") is None)
+                if not plain:
+                    R.violation(rule, rel, k.name, norm(item), f"the verdict field `{item.target.id}` is not a plain constructor-initialised field", item.lineno)
+                    n_bad += 1
+    # the class object is not patched after its definition
+    for m2 in {MODELS: repo.module(MODELS), AGG: repo.module(AGG)}.values():
+        for top in m2.tree.body:
+            if isinstance(top, (FuncNode, ast.ClassDef)):
+                continue
+            for st, obj in _store_sites(top):
+                if _root_name(obj) == cls_name:
+                    stmt = st if isinstance(st, ast.stmt) else stmt_of(st)
+                    R.violation(rule, m2.rel, "<module>", norm(stmt), f"`{cls_name}` is patched after its definition: field access of the verdict objects is no longer plain", getattr(stmt, "lineno", 0))
+                    n_bad += 1
+            for call in [x for x in ast.walk(top) if isinstance(x, ast.Call)]:
+                if call_name(call) == "setattr" and call.args and dotted_name(call.args[0]) == cls_name:
+                    R.violation(rule, m2.rel, "<module>", norm(stmt_of(call)), f"`{cls_name}` is patched after its definition", call.lineno)
+                    n_bad += 1
+    if not is_dc and not any(isinstance(i, FuncNode) and i.name == "__init__" for i in c.body):
+        raise AnalysisError(f"{cls_name}: neither a dataclass nor a class with __init__")
+    if not n_bad:
+        R.ok(rule, rel, cls_name, f"{cls_name} is a plain record", "fields hold the constructor arguments", c.lineno)
+
+
+def check_verdict_not_rewritten(R: Report, rule: str, fn: ast.FunctionDef, qual: str, verdict_classes: Set[str], fresh_methods: Set[str]) -> None:
+    """A finaliser does not modify a verdict object after it has been built (by a constructor or by finalize_*)."""
+    def makes_verdict(e: Optional[ast.AST]) -> bool:
+        if e is None:
+            return False
+        for x in ast.walk(e):
+            if isinstance(x, ast.Call):
+                if (call_name(x) or "").split(".")[-1] in verdict_classes:
+                    return True
+                if isinstance(x.func, ast.Attribute) and isinstance(x.func.value, ast.Name) and x.func.value.id == "self" and x.func.attr in fresh_methods and x.func.attr.startswith("finalize"):
+                    return True
+        return False
+
+    holders: Set[str] = set()
+    changed = True
+    while changed:
+        changed = False
+        for n in ast.walk(fn):
+            pairs: List[Tuple[ast.AST, Optional[ast.AST]]] = []
+            if isinstance(n, ast.Assign):
+                pairs = [(t, n.value) for t in n.targets]
+            elif isinstance(n, ast.AnnAssign):
+                pairs = [(n.target, n.value)]
+            elif isinstance(n, (ast.For, ast.comprehension)):
+                pairs = [(n.target, n.iter)]
+            elif isinstance(n, ast.NamedExpr):
+                pairs = [(n.target, n.value)]
+            for tgt, val in pairs:
+                if makes_verdict(val) or (val is not None and any(isinstance(x, ast.Name) and x.id in holders for x in ast.walk(val)) and not isinstance(val, (ast.Attribute, ast.Compare))):
+                    for x in ast.walk(tgt):
+                        if isinstance(x, ast.Name) and isinstance(x.ctx, ast.Store) and x.id not in holders:
+                            holders.add(x.id)
+                            changed = True
+    n_bad = 0
+    for st, obj in _store_sites(fn):
+        if _root_name(obj) not in holders or not isinstance(obj, (ast.Attribute, ast.Subscript)):
+            continue
+        # `holder.status = ..`, `holder.summary[k] = ..`, `holder.problems.append(..)` go through a field of the held
+        # object; `results.append(v)` / `results[i] = v` only build the local list of verdicts
+        through_field = not isinstance(obj.value, ast.Name) or (isinstance(obj, ast.Attribute) and (not isinstance(st, ast.Call) or call_name(st) in ("setattr", "delattr")))
+        if through_field:
+            stmt = st if isinstance(st, ast.stmt) else stmt_of(st)
+            R.violation(rule, AGG, qual, norm(stmt), f"`{norm(stmt, 70)}` modifies a verdict object after it was computed: what the caller reads is not what the verdict rules decided from the merged state", getattr(stmt, "lineno", 0))
+            n_bad += 1
+    if not n_bad:
+        R.ok(rule, AGG, qual, f"{fn.name}: verdict objects returned as built", "", fn.lineno)
+
+
 def run(repo: Repo, R: Report) -> None:
     try:
         _run(repo, R)
@@ -713,11 +1184,22 @@ def _run(repo: Repo, R: Report) -> None:
 
     r_store = R.rule("C13-D1-commutative-stores", "every store of the _ingest_* methods is a commutative merge: create-if-absent from the key only, flag, min/max, set add, counter, assign-if-present from a record type unique per key, or last-writer from a SER", 25)
     r_reg = R.rule("C13-D1-registered-aggregates", "an aggregate object that an _ingest_* method merges into is taken from a container of the aggregator or, when constructed on the spot, is stored into one on every path before the merge takes effect (otherwise the first record seen for a key is lost and the verdict depends on the ingest order)", 5)
+    r_keep = R.rule("C13-D1-entries-created-never-replaced", "a store `container[key] = aggregate` in an _ingest_* method is reached only when the lookup of that key found nothing (or writes back what the lookup gave), and no ingest step removes an entry or an element: an aggregate that already received merges is never replaced by a new one, whatever its state (CFG: every path to the store passes an edge that guarantees absence)", 6)
+    r_hist = R.rule("C13-D1-merges-independent-of-history", "the unconditional merges of the ingest path (dispatch of a record to its _ingest_* method, flag := True, set add, counter) are not skipped by a test that reads state left behind by earlier records (aggregator attributes, module / class level cells, mutable defaults), except an idempotence guard; no function of the aggregation package reads process-lifetime state: what a record contributes does not depend on what was ingested before it", 14)
     ingest_names = [n.name for n in cls.body if isinstance(n, FuncNode) and n.name.startswith("_ingest_")]
     if len(ingest_names) < 5:
         raise AnalysisError("fewer than five _ingest_* methods found")
+    from .c04_rest import process_state_cells
+    agg_mod = repo.module(AGG)
+    cells = process_state_cells(repo, agg_mod)
+    hist_seeds: Set[str] = {"self"} | {c[1] for c in cells}
+    method_names = {n.name for n in cls.body if isinstance(n, FuncNode)}
+    pure = _pure_methods(cls)
+    config = _config_attrs(cls)
+    model_classes = {c.name for c in repo.module(MODELS).tree.body if isinstance(c, ast.ClassDef)}
     for name in ingest_names:
         fn = nfunc(repo, AGG, f"{CLS}.{name}")
+        merge_sites: List[Tuple[ast.stmt, str, Optional[ast.AST]]] = []
         if len(fn.args.args) < 2:
             raise AnalysisError(f"{name}: record parameter not found")
         rec = fn.args.args[1].arg
@@ -748,17 +1230,34 @@ def _run(repo: Repo, R: Report) -> None:
                 kind, detail = classify_store(fn, n, t, rec, key_vars, derived)
                 ok = not kind.startswith("bad") and kind != "unclassified"
                 R.check(ok, r_store, AGG, f"{CLS}.{name}", norm(n), detail if kind.startswith("bad") else f"store into {detail} is not one of the commutative merge forms: the aggregate depends on the order records are ingested", n.lineno, what_ok=kind)
+                if kind in ("flag", "counter"):
+                    merge_sites.append((n, kind, t))
             if isinstance(n, ast.Expr) and isinstance(n.value, ast.Call) and isinstance(n.value.func, ast.Attribute):
                 m = n.value.func.attr
-                if m in ("add", "update", "discard"):
+                if m in ("add", "update"):
                     R.ok(r_store, AGG, f"{CLS}.{name}", norm(n), "set-merge", n.lineno)
-                elif m in ("append", "extend", "insert", "pop", "remove", "clear", "setdefault", "popitem"):
+                    if _root_name(n.value.func) in _state_aliases(fn, {"self"}, fresh_methods):
+                        merge_sites.append((n, "set-add" if m == "add" else "set-merge", n.value if m == "add" else None))
+                elif m in ("append", "extend", "insert", "pop", "remove", "clear", "setdefault", "popitem", "discard"):
                     R.violation(r_store, AGG, f"{CLS}.{name}", norm(n), f"`{m}` on aggregate state is order-dependent / not a merge", n.lineno)
         for c in calls_in(fn):
             if isinstance(c.func, ast.Name) and c.func.id.endswith("Aggregate"):
                 bad = bad_ctor_args(c, rec, key_vars)
                 R.check(not bad, r_store, AGG, f"{CLS}.{name}", norm(c), bad, c.lineno, what_ok="constructed from its key only")
+        check_entries_kept(R, r_keep, fn, f"{CLS}.{name}", rec, fresh_methods, model_classes)  # first: a removal is a located violation even when the shape below is unknown
         check_registered(R, r_reg, fn, f"{CLS}.{name}", rec, fresh_methods)
+        check_history_free(R, r_hist, fn, f"{CLS}.{name}", merge_sites, hist_seeds, method_names, pure, config)
+    # the dispatchers: a record reaches its merge whatever was ingested before
+    for disp, callee_ok, least in (("ingest", lambda a: a.startswith("_ingest_"), 5), ("ingest_many", lambda a: a == "ingest" or a.startswith("_ingest_"), 1)):
+        dfn = nfunc(repo, AGG, f"{CLS}.{disp}", keep=tuple(ingest_names) + ("ingest",))
+        dsites: List[Tuple[ast.stmt, str, Optional[ast.AST]]] = []
+        for c in calls_in(dfn):
+            if isinstance(c.func, ast.Attribute) and isinstance(c.func.value, ast.Name) and c.func.value.id == "self" and callee_ok(c.func.attr):
+                dsites.append((stmt_of(c), f"dispatch to {c.func.attr}", None))
+        if len(dsites) < least:
+            raise AnalysisError(f"{CLS}.{disp}: dispatch calls to the _ingest_* methods not found ({len(dsites)} < {least})")
+        check_history_free(R, r_hist, dfn, f"{CLS}.{disp}", dsites, hist_seeds, method_names, pure, config)
+    check_no_process_cells(R, r_hist, repo, cls)
     # every record type dispatched to its own ingest method
     ing = repo.func(AGG, f"{CLS}.ingest")
     wanted = {"run_space_start", "run_space_end", "pipeline_start", "pipeline_end", "ser"}
@@ -804,6 +1303,13 @@ def _run(repo: Repo, R: Report) -> None:
         if isinstance(item, FuncNode):
             q = f"{CLS}.{item.name}" if item in cls.body else item.name
             check_total(R, r_tot, repo, item, q, opt)
+
+    r_rec = R.rule("C13-D3-verdict-object-is-what-was-computed", "the verdict classes are plain records (no __post_init__ / __init__ / __setattr__ / property that rewrites a field: the `status`, `problems`, `missing_nodes`, `orphan_nodes` a caller reads are the values finalize_* passed to the constructor), and no finaliser modifies a verdict object after it was built - the decision table of D3 is decided on the constructor arguments, so it only speaks about the observable verdict under this condition", 5)
+    vclasses = {(call_name(ctor) or call_attr(ctor) or "").split(".")[-1]: {"status", "problems", "missing_nodes", "orphan_nodes"}, (call_name(lctor) or call_attr(lctor) or "").split(".")[-1]: {"status", "problems", "summary"}}
+    for vname_, observed in vclasses.items():
+        check_verdict_record(R, r_rec, repo, vname_, observed)
+    for fn in (fr, fl, fa):
+        check_verdict_not_rewritten(R, r_rec, fn, f"{CLS}.{fn.name}", set(vclasses), fresh_methods)
 
     # ---------------------------------------------------------------- D3
     r_tab = R.rule("C13-D3-verdict-table", "run verdict: start&end -> complete, start&!end -> partial; launch verdict additionally complete only if no run is partial/invalid; problems name exactly the missing edge; missing = expected - observed, orphan = observed - expected, computed whenever the canonical spec is known", 14)
